@@ -180,8 +180,6 @@ func replayTaint(t TaintFinding) (Violation, bool) {
 	return Violation{Key: key, Desc: desc, Replay: dir}, true
 }
 
-func registerAsm(e *Engine, l *Loaded) {}
-
 func assumptionsFor(prop string) []string {
 	base := []string{
 		"go/ssa lowering and this executor's semantics of the SSA subset used (validated by native replay of every reported counterexample)",
